@@ -4,24 +4,53 @@
      new k c | destroy k | settype k t | gettype k | seteager k v | geteager k | setstats k s | getstats k | getcomm k
      setw k a b c | getw k m1 m2 m3 p1 p2 p3 | setnr k v | getnr k | setpk k v | getpk k | setcb k f x | getcb k
      defaults t e a b c n | pkgid v | shset c t | shget c | spacing a b | spacing0
-   k: controller handle 0..7; c: communicator 0 world, 1 self; s, f, x: indices of dummy objects (0 = NULL);
+     use k mode pay      one collective round sc_notify_payload on controller k (nothing is stored by it)
+     usev k mode         one collective round sc_notify_payloadv (variable-size payload) on controller k
+     shuse c v           sc_shmem_malloc / write / [allgather] / [prefix] / free on communicator c (v: bit 0 allgather, bit 1 prefix, bit 2 memcpy)
+     spacingu a b u      as `spacing`, but the options object is USED between set_spacing and the observed print_usage
+                         (u: bit 0 sc_options_parse, bit 1 an earlier print_usage, bit 2 print_summary, bit 3 more options added)
+   k: controller handle 0..7; c: communicator 0 world, 1 self; s: statistics object (0 = NULL, 1..7 real objects);
+   f, x: indices of callbacks / dummy contexts (0 = NULL);
    m: output pointer given (1) or NULL (0); p: content of the output variable before the call.
-   At the end of a scenario live controllers are destroyed, defaults restored, libsc finalized. */
+   mode: receivers of this rank in the round: 0 none, 1 itself, 2 the next rank, 3 every rank of the communicator;
+   pay: 0 no payload, 1 payload with separate output array, 2 payload in place, 3 no payload and senders == NULL.
+   Every rank of the run executes every operation (the rounds are collective); rank 0 prints to stdout, rank r > 0
+   into <argv[2]>.<r> if a second argument is given.  After each round all ranks meet in a barrier (libsc's recorded
+   back-to-back findings of C01/C02 are not the subject here).
+   At the end of a scenario live controllers are destroyed, defaults restored, libsc finalized (libsc counts allocations
+   per package: `pkgid` must come before the first object of a scenario is created). */
 #include <sc.h>
 #include <sc_notify.h>
 #include <sc_shmem.h>
 #include <sc_options.h>
+#include <sc_statistics.h>
 #include <stdio.h>
 #include <stdlib.h>
 #include <string.h>
 
 static sc_notify_t *obj[8];
-static char dummy_stats[8], dummy_ctx[8];
+static sc_statistics_t *stat_obj[8];
+static char dummy_ctx[8];
 static int capture_on, col_type, col_help;
+static int use_notes;
 
-static void cb1 (sc_array_t * r, sc_array_t * e, sc_array_t * s, sc_notify_t * n, void *ctx) { }
-static void cb2 (sc_array_t * r, sc_array_t * e, sc_array_t * s, sc_notify_t * n, void *ctx) { }
-static void cb3 (sc_array_t * r, sc_array_t * e, sc_array_t * s, sc_notify_t * n, void *ctx) { }
+/* a legal superset computation: every rank may be a sender; the ranks that are not receivers get an "extra" message */
+static void cbx (sc_array_t * r, sc_array_t * e, sc_array_t * s, sc_notify_t * n)
+{
+  int size = 1, i;
+  size_t z;
+  sc_MPI_Comm_size (sc_notify_get_comm (n), &size);
+  sc_array_resize (s, (size_t) size);
+  for (i = 0; i < size; i++) {
+    int found = 0;
+    *(int *) sc_array_index_int (s, i) = i;
+    for (z = 0; z < r->elem_count; z++) if (*(int *) sc_array_index (r, z) == i) found = 1;
+    if (!found) *(int *) sc_array_push (e) = i;
+  }
+}
+static void cb1 (sc_array_t * r, sc_array_t * e, sc_array_t * s, sc_notify_t * n, void *ctx) { cbx (r, e, s, n); }
+static void cb2 (sc_array_t * r, sc_array_t * e, sc_array_t * s, sc_notify_t * n, void *ctx) { cbx (r, e, s, n); }
+static void cb3 (sc_array_t * r, sc_array_t * e, sc_array_t * s, sc_notify_t * n, void *ctx) { cbx (r, e, s, n); }
 static sc_compute_superset_t cbs[4] = { NULL, cb1, cb2, cb3 };
 
 static void capture (FILE * s, const char *fn, int ln, int pkg, int cat, int prio, const char *msg)
@@ -48,12 +77,140 @@ static void pu (FILE * o, unsigned long v) { fprintf (o, "%lx", v); }
 
 static sc_MPI_Comm comm_of (long c) { return c ? sc_MPI_COMM_SELF : sc_MPI_COMM_WORLD; }
 
-static void spacing_probe (int set, int a, int b, FILE * o)
+static sc_statistics_t *stats_of (long s)
+{
+  if (s == 0) return NULL;
+  if (stat_obj[s] == NULL) stat_obj[s] = sc_statistics_new (sc_MPI_COMM_WORLD);
+  return stat_obj[s];
+}
+
+static void note (const char *what, sc_notify_t * n, int mode, int pay)
+{
+  if (use_notes++ < 5) fprintf (stderr, "c20_harness: note: round (type %d mode %d pay %d): %s\n", (int) sc_notify_get_type (n), mode, pay, what);
+}
+
+/* receivers of this rank and the senders it must learn */
+static int pattern (sc_MPI_Comm comm, int mode, int *recs, int *snds, int *rank)
+{
+  int size = 1, i, nn = 0;
+  sc_MPI_Comm_size (comm, &size);
+  sc_MPI_Comm_rank (comm, rank);
+  if (size > 32) size = 32;
+  if (mode == 1) { recs[0] = snds[0] = *rank; nn = 1; }
+  else if (mode == 2) { recs[0] = (*rank + 1) % size; snds[0] = (*rank + size - 1) % size; nn = 1; }
+  else if (mode == 3) { for (i = 0; i < size; i++) recs[i] = snds[i] = i; nn = size; }
+  return nn;
+}
+
+static void do_use (sc_notify_t * n, int mode, int pay)
+{
+  int recs[32], snds[32], rank = 0, nn, i;
+  sc_array_t *rec, *snd = NULL, *in = NULL, *out = NULL, *res, *pres;
+  nn = pattern (sc_notify_get_comm (n), mode, recs, snds, &rank);
+  rec = sc_array_new_count (sizeof (int), (size_t) nn);
+  for (i = 0; i < nn; i++) *(int *) sc_array_index_int (rec, i) = recs[i];
+  if (pay != 3) snd = sc_array_new (sizeof (int));
+  if (pay == 1 || pay == 2) {
+    in = sc_array_new_count (sizeof (int), (size_t) nn);
+    for (i = 0; i < nn; i++) *(int *) sc_array_index_int (in, i) = 1000 * rank + recs[i] + 7;
+    if (pay == 1) out = sc_array_new (sizeof (int));
+  }
+  sc_notify_payload (rec, snd, in, out, 1, n);
+  res = snd != NULL ? snd : rec;
+  pres = out != NULL ? out : in;
+  if ((int) res->elem_count != nn) note ("number of senders", n, mode, pay);
+  else for (i = 0; i < nn; i++) {
+    if (*(int *) sc_array_index_int (res, i) != snds[i]) { note ("senders", n, mode, pay); break; }
+    if (pres != NULL && ((int) pres->elem_count != nn || *(int *) sc_array_index_int (pres, i) != 1000 * snds[i] + rank + 7)) { note ("payload", n, mode, pay); break; }
+  }
+  sc_array_destroy (rec);
+  if (snd != NULL) sc_array_destroy (snd);
+  if (in != NULL) sc_array_destroy (in);
+  if (out != NULL) sc_array_destroy (out);
+  sc_MPI_Barrier (sc_MPI_COMM_WORLD);
+}
+
+static void do_usev (sc_notify_t * n, int mode)
+{
+  int recs[32], snds[32], rank = 0, nn, i, j, tot = 0;
+  sc_array_t *rec, *snd, *in, *out, *ioff, *ooff;
+  nn = pattern (sc_notify_get_comm (n), mode, recs, snds, &rank);
+  rec = sc_array_new_count (sizeof (int), (size_t) nn);
+  snd = sc_array_new (sizeof (int));
+  ioff = sc_array_new_count (sizeof (int), (size_t) nn + 1);
+  ooff = sc_array_new (sizeof (int));
+  in = sc_array_new (sizeof (int));
+  out = sc_array_new (sizeof (int));
+  for (i = 0; i < nn; i++) {
+    int cnt = (rank + recs[i]) % 3;          /* the sender rank passes (sender + receiver) mod 3 items to the receiver */
+    *(int *) sc_array_index_int (rec, i) = recs[i];
+    *(int *) sc_array_index_int (ioff, i) = tot;
+    for (j = 0; j < cnt; j++) *(int *) sc_array_push (in) = 1000 * rank + 10 * recs[i] + j;
+    tot += cnt;
+  }
+  *(int *) sc_array_index_int (ioff, nn) = tot;
+  sc_notify_payloadv (rec, snd, in, out, ioff, ooff, 1, n);
+  if ((int) snd->elem_count != nn || (int) ooff->elem_count != nn + 1) note ("number of senders (payloadv)", n, mode, -1);
+  else {
+    tot = 0;
+    for (i = 0; i < nn; i++) {
+      int cnt = (snds[i] + rank) % 3;
+      if (*(int *) sc_array_index_int (snd, i) != snds[i] || *(int *) sc_array_index_int (ooff, i) != tot) { note ("senders/offsets (payloadv)", n, mode, -1); break; }
+      for (j = 0; j < cnt; j++)
+        if (tot + j >= (int) out->elem_count || *(int *) sc_array_index_int (out, tot + j) != 1000 * snds[i] + 10 * rank + j) { note ("payload (payloadv)", n, mode, -1); break; }
+      tot += cnt;
+    }
+  }
+  sc_array_destroy (rec); sc_array_destroy (snd); sc_array_destroy (in); sc_array_destroy (out);
+  sc_array_destroy (ioff); sc_array_destroy (ooff);
+  sc_MPI_Barrier (sc_MPI_COMM_WORLD);
+}
+
+static void do_shuse (sc_MPI_Comm comm, int v)
+{
+  int size = 1, rank = 0, i, mine;
+  int *arr, *arr2;
+  sc_MPI_Comm_size (comm, &size);
+  sc_MPI_Comm_rank (comm, &rank);
+  arr = (int *) sc_shmem_malloc (-1, sizeof (int), (size_t) size + 1, comm);
+  if (sc_shmem_write_start (arr, comm)) { for (i = 0; i <= size; i++) arr[i] = -1; }
+  sc_shmem_write_end (arr, comm);
+  mine = rank + 40;
+  if (v & 1) {
+    sc_shmem_allgather (&mine, 1, sc_MPI_INT, arr, 1, sc_MPI_INT, comm);
+    for (i = 0; i < size; i++) if (arr[i] != i + 40 && use_notes++ < 5) fprintf (stderr, "c20_harness: note: sc_shmem_allgather result\n");
+  }
+  if (v & 2) {
+    sc_shmem_prefix (&mine, arr, 1, sc_MPI_INT, sc_MPI_SUM, comm);
+    if ((arr[0] != 0 || arr[1] != 40) && use_notes++ < 5) fprintf (stderr, "c20_harness: note: sc_shmem_prefix result\n");
+  }
+  if (v & 4) {
+    arr2 = (int *) sc_shmem_malloc (-1, sizeof (int), (size_t) size + 1, comm);
+    sc_shmem_memcpy (arr2, arr, sizeof (int) * ((size_t) size + 1), comm);
+    sc_shmem_free (-1, arr2, comm);
+  }
+  sc_shmem_free (-1, arr, comm);
+  sc_MPI_Barrier (sc_MPI_COMM_WORLD);
+}
+
+static void spacing_probe (int set, int a, int b, int u, FILE * o)
 {
   sc_options_t *opt = sc_options_new ("prog");
-  int var = 0;
+  int var = 0, sw = 0;
+  const char *str = NULL;
+  char a0[] = "prog", a1[] = "-i", a2[] = "5", a3[] = "rest";
+  char *av[5] = { a0, a1, a2, a3, NULL };      /* sc_options_parse keeps the pointer for print_summary */
   sc_options_add_int (opt, 'i', "int", &var, 0, "HELPTXT");
   if (set) sc_options_set_spacing (opt, a, b);
+  if (u & 8) {
+    sc_options_add_switch (opt, 's', "a-rather-long-switch-name", &sw, "switch");
+    sc_options_add_string (opt, 't', NULL, &str, "dflt", "string");
+  }
+  if (u & 1) {
+    if (sc_options_parse (-1, SC_LP_SILENT, opt, 4, av) != 3 || var != 5) fprintf (stderr, "c20_harness: note: sc_options_parse result\n");
+  }
+  if (u & 2) sc_options_print_usage (-1, SC_LP_ESSENTIAL, opt, "ARG\tan argument");
+  if (u & 4) sc_options_print_summary (-1, SC_LP_ESSENTIAL, opt);
   col_type = col_help = -1;
   capture_on = 1;
   sc_options_print_usage (-1, SC_LP_ESSENTIAL, opt, NULL);
@@ -69,11 +226,18 @@ int main (int argc, char **argv)
   int a0 = sc_notify_nary_ntop_default, b0 = sc_notify_nary_nint_default, c0 = sc_notify_nary_nbot_default;
   int n0 = sc_notify_ranges_num_ranges_default;
   FILE *o = stdout;
+  int myrank = 0;
 #ifdef SC_ENABLE_MPI
   if (sc_MPI_Init (&argc, &argv) != sc_MPI_SUCCESS) return 4;
+  sc_MPI_Comm_rank (sc_MPI_COMM_WORLD, &myrank);
 #endif
   /* the scenarios come from a file (argument): mpirun's forwarding of a long stdin is not reliable */
   if (argc > 1 && freopen (argv[1], "r", stdin) == NULL) return 5;
+  if (myrank > 0) {
+    char fn[4096];
+    snprintf (fn, sizeof (fn), "%s.%d", argc > 2 ? argv[2] : "/dev/null", myrank);
+    if ((o = fopen (argc > 2 ? fn : "/dev/null", "w")) == NULL) return 5;
+  }
   sc_set_log_defaults (stderr, capture, SC_LP_ESSENTIAL);
   while (getline (&line, &cap, stdin) > 0) {
     char *save = NULL, *opx;
@@ -95,10 +259,12 @@ int main (int argc, char **argv)
       else if (!strcmp (name, "gettype")) ph (o, (long) sc_notify_get_type (obj[a[0]]), 1);
       else if (!strcmp (name, "seteager")) sc_notify_set_eager_threshold (obj[a[0]], (size_t) strtoull (w[1], NULL, 16));
       else if (!strcmp (name, "geteager")) pu (o, (unsigned long) sc_notify_get_eager_threshold (obj[a[0]]));
-      else if (!strcmp (name, "setstats")) sc_notify_set_stats (obj[a[0]], a[1] ? (sc_statistics_t *) & dummy_stats[a[1]] : NULL);
+      else if (!strcmp (name, "setstats")) sc_notify_set_stats (obj[a[0]], stats_of (a[1]));
       else if (!strcmp (name, "getstats")) {
-        char *p = (char *) sc_notify_get_stats (obj[a[0]]);
-        ph (o, p == NULL ? 0 : (p >= dummy_stats && p < dummy_stats + 8 ? (long) (p - dummy_stats) : 99), 1);
+        sc_statistics_t *p = sc_notify_get_stats (obj[a[0]]);
+        long si = p == NULL ? 0 : 99;
+        for (i = 1; i < 8; i++) if (p != NULL && p == stat_obj[i]) si = i;
+        ph (o, si, 1);
       }
       else if (!strcmp (name, "getcomm")) {
         sc_MPI_Comm c = sc_notify_get_comm (obj[a[0]]);
@@ -136,19 +302,25 @@ int main (int argc, char **argv)
       }
       else if (!strcmp (name, "shset")) sc_shmem_set_type (comm_of (a[0]), (sc_shmem_type_t) a[1]);
       else if (!strcmp (name, "shget")) ph (o, (long) sc_shmem_get_type (comm_of (a[0])), 1);
-      else if (!strcmp (name, "spacing")) spacing_probe (1, (int) a[0], (int) a[1], o);
-      else if (!strcmp (name, "spacing0")) spacing_probe (0, 0, 0, o);
+      else if (!strcmp (name, "spacing")) spacing_probe (1, (int) a[0], (int) a[1], 0, o);
+      else if (!strcmp (name, "spacing0")) spacing_probe (0, 0, 0, 0, o);
+      else if (!strcmp (name, "spacingu")) spacing_probe (1, (int) a[0], (int) a[1], (int) a[2], o);
+      else if (!strcmp (name, "use")) do_use (obj[a[0]], (int) a[1], (int) a[2]);
+      else if (!strcmp (name, "usev")) do_usev (obj[a[0]], (int) a[1]);
+      else if (!strcmp (name, "shuse")) do_shuse (comm_of (a[0]), (int) a[1]);
       else { fprintf (stderr, "c20_harness: unknown operation '%s'\n", name); return 2; }
     }
     fputc ('\n', o);
     fflush (o);
     for (i = 0; i < 8; i++) if (obj[i] != NULL) { sc_notify_destroy (obj[i]); obj[i] = NULL; }
+    for (i = 0; i < 8; i++) if (stat_obj[i] != NULL) { sc_statistics_destroy (stat_obj[i]); stat_obj[i] = NULL; }
     sc_notify_type_default = (sc_notify_type_t) t0; sc_notify_eager_threshold_default = e0;
     sc_notify_nary_ntop_default = a0; sc_notify_nary_nint_default = b0; sc_notify_nary_nbot_default = c0;
     sc_notify_ranges_num_ranges_default = n0;
     if (sc_package_id >= 0) sc_finalize ();
     if (sc_memory_status (-1) != 0) { fprintf (stderr, "c20_harness: memory imbalance after scenario\n"); return 6; }
   }
+  if (o != stdout) fclose (o);
 #ifdef SC_ENABLE_MPI
   sc_MPI_Finalize ();
 #endif
